@@ -1,7 +1,7 @@
 SPECIFICATION Spec
 CONSTANTS
   Mode = "utf8"
-  Step = 257
+  Step = 17
   DecRange = 70000
   U8 <- Utf8Bug
   WR <- Write
